@@ -71,6 +71,12 @@ type doneHarnessActionMessage struct{}
 
 func (m doneHarnessActionMessage) message() {}
 
+// rearmHarnessMessage tells the harness that the listener of a non-interrupting
+// boundary event has left for the exception flow
+type rearmHarnessMessage struct{ listener int }
+
+func (m rearmHarnessMessage) message() {}
+
 type harness struct {
 	*wiring
 	mch                chan imessage
@@ -81,7 +87,9 @@ type harness struct {
 
 	once sync.Once
 	// listeners create, for every boundary event, the flow that waits at it
-	listeners []func() *flow
+	listeners []func(ctx context.Context) *flow
+	// catches are the boundary events' nodes
+	catches []*catchEvent
 	// tokens counts the tokens inside the activity, withdraw holds the termination
 	// channels of the listener flows armed for them (both owned by run)
 	tokens   int
@@ -161,15 +169,29 @@ func newHarness(wr *wiring, idGenerator id.IGenerator, constructor constructor) 
 			return
 		}
 
-		var actionTransformer ActionTransformer
-		if boundaryEvent.CancelActivity() {
-			actionTransformer = func(sequenceFlowId *schema.IdRef, action IAction) IAction {
-				// every activation can be interrupted, not only the first
-				<-node.activity.Cancel()
-				return action
+		interrupting := boundaryEvent.CancelActivity()
+		catchEventNode.persistent = !interrupting
+		index := len(node.listeners)
+		node.catches = append(node.catches, catchEventNode)
+		node.listeners = append(node.listeners, func(ctx context.Context) *flow {
+			var actionTransformer ActionTransformer
+			if interrupting {
+				actionTransformer = func(sequenceFlowId *schema.IdRef, action IAction) IAction {
+					// every activation can be interrupted, not only the first
+					<-node.activity.Cancel()
+					return action
+				}
+			} else {
+				actionTransformer = func(sequenceFlowId *schema.IdRef, action IAction) IAction {
+					// the activity goes on and so does the listening: once per event,
+					// not once per activation
+					select {
+					case node.mch <- rearmHarnessMessage{listener: index}:
+					case <-ctx.Done():
+					}
+					return action
+				}
 			}
-		}
-		node.listeners = append(node.listeners, func() *flow {
 			return newFlow(node.definitions, catchEventNode, node.tracer, node.flowNodeMapping, node.flowWaitGroup, idGenerator, actionTransformer, node.locator)
 		})
 	}
@@ -180,13 +202,17 @@ func newHarness(wr *wiring, idGenerator id.IGenerator, constructor constructor) 
 // as a token is inside the activity: left waiting after it, they would keep the
 // instance from ever completing.
 func (node *harness) arm(ctx context.Context) {
-	for _, listener := range node.listeners {
-		ch := make(chan bool, 1)
-		flowable := listener()
-		flowable.SetTerminate(func(*schema.IdRef) chan bool { return ch })
-		flowable.Start(ctx)
-		node.withdraw = append(node.withdraw, ch)
+	for i := range node.listeners {
+		node.listen(ctx, i)
 	}
+}
+
+func (node *harness) listen(ctx context.Context, listener int) {
+	ch := make(chan bool, 1)
+	flowable := node.listeners[listener](ctx)
+	flowable.SetTerminate(func(*schema.IdRef) chan bool { return ch })
+	flowable.Start(ctx)
+	node.withdraw = append(node.withdraw, ch)
 }
 
 // disarm ends the listener flows that still wait at their boundary event
@@ -195,6 +221,9 @@ func (node *harness) disarm() {
 		ch <- true
 	}
 	node.withdraw = nil
+	for _, catch := range node.catches {
+		catch.reset()
+	}
 }
 
 func (node *harness) run(ctx context.Context, sender tracing.ISenderHandle) {
@@ -226,6 +255,10 @@ func (node *harness) run(ctx context.Context, sender tracing.ISenderHandle) {
 					}
 				}(ctx)
 				m.response <- out
+			case rearmHarnessMessage:
+				if node.tokens > 0 {
+					node.listen(ctx, m.listener)
+				}
 			case doneHarnessActionMessage:
 				node.tokens--
 				if node.tokens == 0 {
